@@ -159,7 +159,8 @@ def r23(ctx):
                      "unreachable when EnforcementState.channel_closed")
     b = ctx.prog.fn(f"{CH}::revoke_previous_holder_commitment")
     fv = fnview(ctx, b)
-    adv = [(bi, ln) for bi, ln, c in R.call_blocks(fv, lambda n: n == f"{CH}::advance_holder_commitment_state")]
+    # the advance = the checked Validator::set_next_holder_commit_num call (advance_holder_commitment_state is transparent)
+    adv = [(bi, ln) for bi, ln, c in R.call_blocks(fv, lambda n: n == f"{VAL}::set_next_holder_commit_num")]
     ctx.floor("R2.3", "advance call", len(adv), 1)
     R.scenario_refused(ctx, "R2.3", b, ["EnforcementState.channel_closed"], adv,
                        key=f"{b.name}/advance/not-closed",
@@ -173,7 +174,7 @@ def r23(ctx):
         ctx.ob("R2.3", bi not in fv.reach(0, cut_nodes=advb), f"{b.name}/persist-after-advance",
                "revoke_previous_holder_commitment can persist the channel before the counter advance and the secret release: the "
                "stored state does not know the revocation, and a restarted signer signs the revoked commitment",
-               where=f"{b.file}:{ln}", sample="persist dominated by advance_holder_commitment_state")
+               where=f"{b.file}:{ln}", sample="persist dominated by the counter advance")
     # also the take() of the stored info happens only when not closed (no state change on refusal)
     # activate_initial_commitment: advancing 0 -> 1 discloses nothing (no predecessor) : recorded
     ctx.sample("R2.3", "activate_initial_commitment", "channel.rs", "initial activation discloses no secret (n=0 has no predecessor)")
